@@ -88,20 +88,16 @@ Result(h, s) ==
 
 ---------------------------------------------------------------------------
 FaultySets == {S \in SUBSET P : Cnt(S) <= MaxF /\ Cnt(S) <= N - T}
-\* strategies of a faulty party (chosen up-front; entries that never come into play are harmless)
+\* menus of a faulty party; the strategy is revealed round by round (a later entry cannot influence an earlier round)
 DealPats(S) == LET H == P \ S IN
    {[h \in H |-> "G"], [h \in H |-> "B"], [h \in H |-> "U"]}
    \cup {[h \in H |-> IF h = x THEN k ELSE "G"] : x \in H, k \in {"B", "U"}}
 RespPats(S) == LET H == P \ S IN
    {[d \in H |-> "app"], [d \in H |-> "none"]} \cup {[d \in H |-> IF d = x THEN "comp" ELSE "app"] : x \in H}
 RcMenu == {<<>>, <<"true">>, <<"g1">>, <<"g1", "g2">>}
-Strats(S) == [deal : [S -> DealPats(S)], resp : [S -> RespPats(S)], just : [S -> {"none", "valid", "invalid"}],
-              sc : [S -> {"none", "true", "altnone", "altmost"}], rc : [S -> RcMenu]]
-
 Init == /\ F = {} /\ round = "setup" /\ node = <<>> /\ msgs = <<>> /\ hist = <<>>
         /\ strat = [deal |-> <<>>, resp |-> <<>>, just |-> <<>>, sc |-> <<>>, rc |-> <<>>]
 
-\* to keep the space small the strategy is revealed round by round (a later entry cannot influence an earlier round)
 Setup ==
   /\ round = "setup"
   /\ \E S \in FaultySets : \E dl \in [S -> DealPats(S)] :
